@@ -522,7 +522,7 @@ def ob_preemptive_marker(w=2):
 
 def tasks(tier):
     out = [task(MOD, 'ob_preemptive_marker', ('C02', 'C05'), label='time/preemptive-marker', cost=3)]
-    P = ('C01', 'C02', 'C03', 'C04', 'C08', 'C09', 'C10', 'C15', 'C16')
+    P = ('C01', 'C02', 'C03', 'C04', 'C07', 'C08', 'C09', 'C10', 'C14', 'C15', 'C16')
     for w in ((2,) if tier == 'quick' else (2, 3, 4)):          # w = 8: see DESIGN 16.10
         for unchecked in (False, True):
             if unchecked and tier == 'quick':
